@@ -6,6 +6,7 @@ ASSUMPTIONS = [
     "every kind of invalid argument listed by the property, at every position among valid arguments, with every iteration order of the sets torchjd builds "
     "(tensor hashes by free choice); programs: 3 leaves with optional pre-existing .grad, one intermediate tensor, two outputs / a trunk with two heads",
     "obligation: if the call raises (any exception type), no .grad field was assigned and no .grad storage was written (event log of the environment model + value snapshots)",
+    "the tensor that does not require grad is tried both as a plain tensor and as a FROZEN torch.nn.Parameter (model: a Tensor subclass; replay: nn.Parameter(requires_grad=False))",
     "the aggregator-rejection clause applies to backward only (as stated by the property); in mtl_backward the task-specific gradients are accumulated before the aggregator runs",
 ]
 
@@ -84,6 +85,9 @@ def case_bw(sp, kind):
         bad = prog["h"] if kind == "nonleaf_input" else prog["d"]
         valid = [["a"], ["a", "b"], ["a", "b", "c"]][choice(3, "valid_inputs")]
         pos = choice(len(valid) + 1, "position")
+        if kind == "no_grad_input" and choice(2, "frozen_nn_parameter") == 1:
+            bad.__class__ = torch.nn.Parameter  # a frozen nn.Parameter is refused like any tensor that does not require grad
+            descr["as_parameter"] = True
         lst = [prog[n] for n in valid]
         lst.insert(pos, bad)
         kw["inputs"] = lst
@@ -166,6 +170,9 @@ def case_mtl(sp, kind):
         shp.insert(pos, prog["f"] if False else prog["m0"])
         descr.update(position=pos)
     elif kind == "no_grad_param":
+        if choice(2, "frozen_nn_parameter") == 1:
+            prog["d"].__class__ = torch.nn.Parameter
+            descr["as_parameter"] = True
         which = choice(2, "where")
         if which == 0:
             tp[choice(2, "task")].append(prog["d"])
